@@ -77,9 +77,10 @@ func init() {
 			}
 			ins = append(ins, lzInput{"testdata:" + name, b})
 		}
-		if c.Thorough() {
-			ins = append(ins, lzInput{"fib-profile-full", fibProfile(1.0)})
-		} else {
+		// the full profile (Huffman codes of 17 and 18 bits just before the first rebuild of the tree) comes FIRST
+		// after the short inputs in both tiers: codes longer than 16 bits exist on no smaller input
+		ins = append([]lzInput{{"fib-profile-full", fibProfile(1.0)}}, ins...)
+		if !c.Thorough() {
 			ins = append(ins, lzInput{"fib-profile-half", fibProfile(0.35)})
 		}
 		for idx, in := range ins {
